@@ -61,12 +61,12 @@ def impl():
 class Problem:
     """a real DynamicsFunctions on a structured mesh plus dense-Newton minimisation of its algorithmic energy"""
 
-    def __init__(self, Nx, Ny, xe, ye, order, E, nu, rho, gamma, beta, material='linear', qdeg=None, distort=0.0, dseed=0):
+    def __init__(self, Nx, Ny, xe, ye, order, E, nu, rho, gamma, beta, material='linear', qdeg=None, distort=0.0, dseed=0, mode='plane strain'):
         I = impl()
         jax, jnp = I['jax'], I['jnp']
         qdeg = qdeg if qdeg is not None else 2 * order
         self.args = dict(Nx=Nx, Ny=Ny, xExtent=xe, yExtent=ye, order=order, E=E, nu=nu, rho=rho, gamma=gamma, beta=beta, material=material,
-                         qdeg=qdeg, distort=distort, dseed=dseed)
+                         qdeg=qdeg, distort=distort, dseed=dseed, mode=mode)
         self.full_rule = qdeg >= 2 * order
         if distort > 0:
             # distorted mesh: interior vertices of the structured simplex mesh moved by a seeded random fraction of the cell size,
@@ -87,16 +87,19 @@ class Problem:
         else:
             mesh = I['Mesh'].construct_structured_mesh(Nx, Ny, xe, ye, elementOrder=order)
         qr = I['QR'].create_quadrature_rule_on_triangle(degree=qdeg)
-        self.fs = I['FS'].construct_function_space(mesh, qr)
+        self.fs = I['FS'].construct_function_space(mesh, qr, mode2D=('axisymmetric' if mode == 'axisymmetric' else 'cartesian'))
         self.mesh = mesh
         props = {'elastic modulus': E, 'poisson ratio': nu, 'density': rho}
         mat = (I['LE'] if material == 'linear' else I['NH']).create_material_model_functions(props)
-        self.dyn = I['Mechanics'].create_dynamics_functions(self.fs, 'plane strain', mat, I['Mechanics'].NewmarkParameters(gamma=gamma, beta=beta))
+        self.dyn = I['Mechanics'].create_dynamics_functions(self.fs, mode, mat, I['Mechanics'].NewmarkParameters(gamma=gamma, beta=beta))
         self.state = self.dyn.compute_initial_state()
         self.shape = mesh.coords.shape
         self.n = self.shape[0] * self.shape[1]
         self.rho, self.gamma, self.beta = rho, gamma, beta
         self.area = (xe[1] - xe[0]) * (ye[1] - ye[0])
+        if mode == 'axisymmetric':      # volume of revolution of the rectangle about the axis r = 0
+            self.area = math.pi * (xe[1] ** 2 - xe[0] ** 2) * (ye[1] - ye[0])
+        self.mode = mode
         sh = self.shape
         dyn, st = self.dyn, self.state
         ealg = lambda u, up, dt: dyn.compute_algorithmic_energy(u.reshape(sh), up.reshape(sh), st, dt)
@@ -129,17 +132,20 @@ class Problem:
         return U1, V1.ravel(), A1.ravel(), Up
 
 
-def random_problem(ctx, r, trapezoidal, order=None, material='linear', qdeg=None, distort=0.0):
+def random_problem(ctx, r, trapezoidal, order=None, material='linear', qdeg=None, distort=0.0, mode='plane strain'):
     order = order or r.choice([1, 2])
     Nx, Ny = (r.randrange(3, 6), r.randrange(3, 5)) if order >= 2 else (r.randrange(3, 8), r.randrange(3, 7))
     xe, ye = (0.0, r.uniform(0.5, 2.0)), (0.0, r.uniform(0.2, 1.0))
+    if mode == 'axisymmetric':
+        r0 = r.uniform(0.3, 1.0)        # hollow cylinder: keeps u_r / r regular
+        xe = (r0, r0 + xe[1])
     E, nu, rho = 10.0 ** r.uniform(0, 2), r.uniform(0.0, 0.4), 10.0 ** r.uniform(-1, 1)
     if trapezoidal:
         gamma, beta = 0.5, 0.25
     else:
         gamma = r.uniform(0.5, 1.0)
         beta = 0.25 * (gamma + 0.5) ** 2 * r.uniform(1.0, 1.5)
-    return Problem(Nx, Ny, xe, ye, order, E, nu, rho, gamma, beta, material, qdeg=qdeg, distort=distort, dseed=r.randrange(1 << 30))
+    return Problem(Nx, Ny, xe, ye, order, E, nu, rho, gamma, beta, material, qdeg=qdeg, distort=distort, dseed=r.randrange(1 << 30), mode=mode)
 
 
 def nrm(x):
@@ -157,6 +163,8 @@ def check_steps(ctx, P, r, nsteps, kind, distinct):
     if kind == 'translation':
         c = (r.uniform(-1, 1), r.uniform(-1, 1))
         off = (r.uniform(-1, 1), r.uniform(-1, 1)) if r.random() < 0.5 else (0.0, 0.0)
+        if P.mode == 'axisymmetric':      # only the axial translation is a rigid motion of a body of revolution
+            c, off = (0.0, c[1]), (0.0, off[1])
         U = jnp.tile(jnp.array(off), P.shape[0])
         V = jnp.tile(jnp.array(c), P.shape[0])
         A = jnp.zeros(n)
@@ -172,6 +180,10 @@ def check_steps(ctx, P, r, nsteps, kind, distinct):
             U = jnp.zeros(n)
             A = jnp.zeros(n)
     E0 = float(P.ke(V) + P.se(U))
+    if not (math.isfinite(E0) and bool(jnp.all(jnp.isfinite(A)))):
+        ctx.fail('conclusion', 'initial energy or consistent initial acceleration is not finite (E0 = %r): the reported kinetic/strain '
+                 'energies or their derivatives are NaN/inf on an admissible state' % E0, case=case0, concrete=True)
+        return 0
     U0, t = U, 0.0
     dts = []
     worst = dict(balance=0.0, stationarity=0.0, update=0.0, drift=0.0, translation=0.0)
@@ -186,14 +198,19 @@ def check_steps(ctx, P, r, nsteps, kind, distinct):
         fsc = nrm(fi) + nrm(ma) + 1e-300
         if fsc > 1e-6:
             worst['stationarity'] = max(worst['stationarity'], nrm(g) / fsc)
-        if nrm(g) > 1e-8 * fsc + 1e-12:
+        if not (nrm(g) <= 1e-8 * fsc + 1e-12):
             ctx.notes.append('harness Newton solve did not converge at step %d (%s): |grad| = %.3g' % (k, kind, nrm(g)))
+            if P.args['material'] == 'linear':
+                # the algorithmic energy of a linear-elastic body is a convex quadratic: Newton on its exact Hessian cannot fail unless
+                # the energy / its derivatives are not what compute_newmark_lagrangian promises (NaN, indefinite or inconsistent Hessian)
+                ctx.fail('correspondence', 'dense Newton on the quadratic algorithmic energy did not reach a stationary point at step %d (%s): '
+                         '|grad| = %r, forces %r' % (k, kind, nrm(g), fsc), case=case)
             return k
         # (b) balance of momentum at the new time: M A1 + fint(U1) = 0
         res = nrm(fi + ma)
         if fsc > 1e-6:
             worst['balance'] = max(worst['balance'], res / fsc)
-        if res > 1e-8 * fsc + 1e-12:
+        if not (res <= 1e-8 * fsc + 1e-12):
             ctx.fail('conclusion', 'balance of momentum violated after the step: |M A1 + fint(U1)| = %.3g (forces %.3g)' % (res, fsc), case=case, concrete=True)
         # (c) Newmark update formulas
         b_, g_ = P.beta, P.gamma
@@ -202,7 +219,7 @@ def check_steps(ctx, P, r, nsteps, kind, distinct):
         usc = nrm(U1) + dt * nrm(V) + dt * dt * (nrm(A) + nrm(A1)) + 1e-300
         vsc = nrm(V1) + dt * (nrm(A) + nrm(A1)) + 1e-300
         worst['update'] = max(worst['update'], eu / usc, ev / vsc)
-        if eu > 1e-11 * usc or ev > 1e-11 * vsc:
+        if not (eu <= 1e-11 * usc and ev <= 1e-11 * vsc):
             ctx.fail('conclusion', 'Newmark update formulas violated: |dU| = %.3g (scale %.3g), |dV| = %.3g (scale %.3g)' % (eu, usc, ev, vsc), case=case, concrete=True)
         U, V, A = U1, V1, A1
         t += dt
@@ -210,7 +227,7 @@ def check_steps(ctx, P, r, nsteps, kind, distinct):
             En = float(P.ke(V) + P.se(U))
             drift = abs(En - E0) / E0
             worst['drift'] = max(worst['drift'], drift)
-            if drift > 1e-10 * (k + 1) + 1e-12:
+            if not (drift <= 1e-10 * (k + 1) + 1e-12):
                 ctx.fail('conclusion', 'total energy not conserved with trapezoidal parameters: E0 = %r, E after %d steps = %r (relative drift %.3g)'
                          % (E0, k + 1, En, drift), case=case, concrete=True)
                 break
@@ -218,7 +235,7 @@ def check_steps(ctx, P, r, nsteps, kind, distinct):
             exact = U0 + t * jnp.tile(jnp.array(c), P.shape[0])
             err = float(jnp.max(jnp.abs(U - exact)))
             worst['translation'] = max(worst['translation'], err)
-            if err > 1e-11 * (1 + t * max(abs(c[0]), abs(c[1]))) or float(jnp.max(jnp.abs(A))) > 1e-8:
+            if not (err <= 1e-11 * (1 + t * max(abs(c[0]), abs(c[1]))) and float(jnp.max(jnp.abs(A))) <= 1e-8):
                 ctx.fail('conclusion', 'rigid translation at constant velocity not reproduced: max error %.3g after %d steps (t = %.3g), max |A| = %.3g'
                          % (err, k + 1, t, float(jnp.max(jnp.abs(A)))), case=dict(case, c=c, offset=off), concrete=True)
                 break
@@ -239,7 +256,10 @@ def check_hypotheses_and_mass(ctx, P, r):
     M = onp.array(P.hke(jnp.zeros(n)))
     K = onp.array(P.hse(jnp.zeros(n)))
     msc, ksc = abs(M).max(), abs(K).max()
-    if abs(M - M.T).max() > 1e-12 * msc or abs(K - K.T).max() > 1e-12 * ksc:
+    if not (onp.all(onp.isfinite(M)) and onp.all(onp.isfinite(K))):
+        ctx.fail('conclusion', 'Hessian of the reported kinetic or strain energy at the rest state is not finite (NaN/inf entries)', case=case, concrete=True)
+        return dict(M=M, K=K, sxx=float('nan'))
+    if not (abs(M - M.T).max() <= 1e-12 * msc and abs(K - K.T).max() <= 1e-12 * ksc):
         ctx.fail('conclusion', 'mass or stiffness form is not symmetric', case=case, concrete=True)
     ev = onp.linalg.eigvalsh(0.5 * (M + M.T))
     ek = onp.linalg.eigvalsh(0.5 * (K + K.T))
@@ -248,7 +268,7 @@ def check_hypotheses_and_mass(ctx, P, r):
     dt_ = 0.37
     z = jnp.zeros(n)
     Malg = P.beta * dt_ * dt_ * (onp.array(P.halg(z, z, dt_)) - K)
-    dev = abs(Malg - M).max()
+    dev = abs(Malg - M).max() if onp.all(onp.isfinite(Malg)) else float('nan')
     if not dev <= 1e-9 * msc:
         ctx.fail('conclusion', 'mass of the algorithmic energy differs from the mass of compute_output_kinetic_energy: max entry difference %.3g (scale %.3g)'
                  % (dev, msc), case=case, concrete=True)
@@ -261,27 +281,42 @@ def check_hypotheses_and_mass(ctx, P, r):
         ctx.fail('conclusion', 'linear-elastic stiffness is not positive semi-definite: min eigenvalue %r' % ek.min(), case=case, concrete=True)
     cx = onp.tile([1.0, 0.0], P.shape[0])
     cy = onp.tile([0.0, 1.0], P.shape[0])
-    if abs(K @ cx).max() > 1e-9 * ksc or abs(K @ cy).max() > 1e-9 * ksc:
+    if not ((P.mode == 'axisymmetric' or abs(K @ cx).max() <= 1e-9 * ksc) and abs(K @ cy).max() <= 1e-9 * ksc):
         ctx.fail('conclusion', 'K c <> 0 for a rigid translation c', case=case, concrete=True)
     # quadratic forms really are the energies
     v = onp.array([r.uniform(-1, 1) for _ in range(n)])
-    if abs(float(P.ke(jnp.array(v))) - 0.5 * v @ M @ v) > 1e-10 * msc * n:
+    if not (abs(float(P.ke(jnp.array(v))) - 0.5 * v @ M @ v) <= 1e-10 * msc * n):
         ctx.fail('conclusion', 'kinetic energy is not 1/2 V.M.V', case=case, concrete=True)
     # total mass
     target = P.rho * P.area
     tot_x, tot_y, cross = cx @ M @ cx, cy @ M @ cy, cx @ M @ cy
-    if abs(tot_x - target) > 1e-11 * target or abs(tot_y - target) > 1e-11 * target or abs(cross) > 1e-11 * target:
+    if not (abs(tot_x - target) <= 1e-11 * target and abs(tot_y - target) <= 1e-11 * target and abs(cross) <= 1e-11 * target):
         ctx.fail('conclusion', 'consistent mass does not sum to density*area: sum_xx = %r, sum_yy = %r, density*area = %r' % (tot_x, tot_y, target), case=case, concrete=True)
     em = onp.array(P.dyn.compute_element_masses())
     ne = em.shape[0]
     em = em.reshape(ne, -1, 2, em.shape[-2] if em.ndim == 5 else em.shape[1] // 1, 2) if em.ndim == 5 else em
     sxx = float(em[:, :, 0, :, 0].sum()) if em.ndim == 5 else float('nan')
-    if em.ndim == 5 and abs(sxx - target) > 1e-11 * target:
+    if em.ndim != 5:
+        ctx.fail('correspondence', 'compute_element_masses returns an array of shape %r, expected (elements, nodes, 2, nodes, 2)' % (em.shape,), case=case)
+    if em.ndim == 5 and not (abs(sxx - target) <= 1e-11 * target):
         ctx.fail('conclusion', 'compute_element_masses: x-x entries sum to %r but density*area = %r' % (sxx, target), case=case, concrete=True)
+    if em.ndim == 5:
+        # entry by entry: the element mass matrices scattered through the connectivity ARE the consistent mass matrix implied by the
+        # reported kinetic energy (catches a redistribution of mass that keeps the total, e.g. lumping or a different quadrature)
+        conns = onp.array(P.mesh.conns)
+        Ma = onp.zeros((n, n))
+        nen = conns.shape[1]
+        for e_ in range(ne):
+            dofs = onp.array([[2 * conns[e_, a], 2 * conns[e_, a] + 1] for a in range(nen)]).ravel()
+            Ma[onp.ix_(dofs, dofs)] += em[e_].reshape(2 * nen, 2 * nen)
+        devm = abs(Ma - M).max()
+        if not (devm <= 1e-11 * msc):
+            ctx.fail('conclusion', 'assembled compute_element_masses differs from the mass matrix of compute_output_kinetic_energy: max entry difference %.3g (scale %.3g)'
+                     % (devm, msc), case=case, concrete=True)
     vel = (r.uniform(-3, 3), r.uniform(-3, 3))
     T = float(P.ke(jnp.tile(jnp.array(vel), P.shape[0])))
     Tex = 0.5 * target * (vel[0] ** 2 + vel[1] ** 2)
-    if abs(T - Tex) > 1e-11 * Tex:
+    if not (abs(T - Tex) <= 1e-11 * Tex):
         ctx.fail('conclusion', 'kinetic energy of a rigid velocity %r is %r, expected 1/2 rho area |v|^2 = %r' % (vel, T, Tex), case=case, concrete=True)
     ctx.cov['element_mass_array_shape'] = list(onp.array(P.dyn.compute_element_masses()).shape)
     return dict(M=M, K=K, sxx=sxx)
@@ -336,6 +371,12 @@ def correspondence(ctx, model_ok):
     check_hypotheses_and_mass(ctx, Pd, r)
     evals += 6 + check_steps(ctx, Pd, r, ctx.n(25, 120), 'energy', distinct)
     ctx.log('distorted fully integrated order-2 problem done')
+    # axisymmetric dynamics (mode2D='axisymmetric' of the factory + axisymmetric function space): same clauses; mass = density * volume of revolution
+    Pa = random_problem(ctx, r, trapezoidal=True, order=r.choice([1, 2]), mode='axisymmetric')
+    check_hypotheses_and_mass(ctx, Pa, r)
+    evals += 6 + check_steps(ctx, Pa, r, ctx.n(25, 120), 'energy', distinct)
+    evals += check_steps(ctx, Pa, r, ctx.n(6, 20), 'translation', distinct)
+    ctx.log('axisymmetric problem (order %d, %d dofs) done' % (Pa.args['order'], Pa.n))
     # nonlinear material: balance and update formulas only
     Pn = random_problem(ctx, r, trapezoidal=False, order=1, material='neohookean')
     evals += check_steps(ctx, Pn, r, ctx.n(6, 25), 'general', distinct)
@@ -376,7 +417,7 @@ def correspondence(ctx, model_ok):
     ked = [(r.uniform(-5, 5), r.uniform(-5, 5), 10 ** r.uniform(-2, 2)) for _ in range(ctx.n(50, 300))]
     ked_impl = [float(I['Mechanics'].kinetic_energy_density(jnp.array([a, b]), d)) for a, b, d in ked]
     for (a, b, d), v in zip(ked, ked_impl):
-        if abs(v - 0.5 * d * (a * a + b * b)) > 1e-14 * abs(v):
+        if not (abs(v - 0.5 * d * (a * a + b * b)) <= 1e-14 * abs(v)):
             ctx.fail('conclusion', 'kinetic_energy_density(%r, %r) = %r is not 1/2 rho v.v' % ((a, b), d, v), case=dict(fn='ked', v=(a, b), rho=d), concrete=True)
     ctx.count('evaluations', evals + len(ked))
     ctx.count('distinct_nontrivial', len(distinct))
@@ -472,7 +513,7 @@ def replay(ctx, path):
         keys = ('Nx', 'Ny', 'xExtent', 'yExtent', 'order', 'E', 'nu', 'rho', 'gamma', 'beta', 'material')
         a = {k: case[k] for k in keys}
         P = Problem(a['Nx'], a['Ny'], tuple(a['xExtent']), tuple(a['yExtent']), a['order'], a['E'], a['nu'], a['rho'], a['gamma'], a['beta'], a['material'],
-                    qdeg=case.get('qdeg'), distort=case.get('distort', 0.0), dseed=case.get('dseed', 0))
+                    qdeg=case.get('qdeg'), distort=case.get('distort', 0.0), dseed=case.get('dseed', 0), mode=case.get('mode', 'plane strain'))
         c2 = C.Ctx(ID, 'quick', rep.get('seed', 0))
         r = c2.rng('replay')
         if case['fn'] == 'forms':
